@@ -71,7 +71,7 @@ CfgOfModel ==
     consuming |-> Kind \in {"vec", "array"}, clones |-> FALSE ]
 
 MonCfg(c) == [len |-> c.len, base |-> c.base, fam |-> "counter", hint |-> "exact",
-              consuming |-> c.consuming, clones |-> c.clones, nthreads |-> c.nt, extra |-> 0, kind |-> c.kind]
+              consuming |-> c.consuming, clones |-> c.clones, nthreads |-> c.nt, extra |-> 0, faults |-> 0, kind |-> c.kind]
 
 Takes == {IF j = 9 THEN -1 ELSE j : j \in TakeSet}
 OwnerOnly == {"clone", "intoseq", "drop"}
